@@ -117,6 +117,80 @@ def _sweep_of_cover(par, il, X):
     return None
 
 
+def _dedupe_flow(lm, scl):
+    """De-duplication written as ONE expression: {tuple(c) for c in SRC} / set(tuple(c) for c in SRC) / set(map(tuple, SRC)).
+    Returns (node, [(leaf expression, "sorted" | "raw" | "unknown")]) for the element sources of SRC, or None."""
+    cands = []
+    for n in astx.walk_fn(lm.node):
+        if isinstance(n, ast.SetComp) and len(n.generators) == 1 and isinstance(n.generators[0].target, ast.Name) and txt(n.elt) == f"tuple({n.generators[0].target.id})":
+            cands.append((n, n.generators[0].iter))
+        elif isinstance(n, ast.Call) and txt(n.func) == "set" and len(n.args) == 1:
+            a = n.args[0]
+            if isinstance(a, (ast.GeneratorExp, ast.ListComp)) and len(a.generators) == 1 and isinstance(a.generators[0].target, ast.Name) and txt(a.elt) == f"tuple({a.generators[0].target.id})":
+                cands.append((n, a.generators[0].iter))
+            elif isinstance(a, ast.Call) and txt(a.func) == "map" and len(a.args) == 2 and txt(a.args[0]) == "tuple":
+                cands.append((n, a.args[1]))
+    if len(cands) != 1:
+        return None
+    node, src = cands[0]
+
+    def is_sorted_seq(x, env):
+        x = scl.resolve(x) if isinstance(x, ast.Name) and x.id not in env else x
+        if isinstance(x, ast.Call) and txt(x.func) == "sorted":
+            return True
+        if isinstance(x, ast.Call) and txt(x.func) in ("tuple", "list") and len(x.args) == 1:
+            return is_sorted_seq(x.args[0], env)
+        if isinstance(x, ast.Name) and x.id in env:
+            return env[x.id] == "sorted" if env[x.id] in ("sorted", "raw") else None
+        return None
+
+    def elems(x, env, depth=0):
+        """statuses of the ELEMENTS of iterable x"""
+        if depth > 8:
+            return [(x, "unknown")]
+        if isinstance(x, ast.Name) and x.id not in env:
+            r = scl.resolve(x)
+            if r is not x and not (isinstance(r, ast.Name) and r.id == x.id):
+                return elems(r, env, depth + 1)
+            return [(x, "unknown")]
+        if isinstance(x, ast.Call):
+            f = txt(x.func)
+            if f in ("self.find_cliques", "nx.find_cliques", "networkx.find_cliques"):
+                return [(x, "raw")]
+            if f in ("list", "tuple", "iter") and len(x.args) == 1:
+                return elems(x.args[0], env, depth + 1)
+            if f in ("chain", "itertools.chain"):
+                return [l for a in x.args for l in elems(a, env, depth + 1)]
+            if f in ("chain.from_iterable", "itertools.chain.from_iterable") and len(x.args) == 1 and isinstance(x.args[0], (ast.GeneratorExp, ast.ListComp)) and len(x.args[0].generators) == 1:
+                g = x.args[0].generators[0]
+                env2 = dict(env)
+                if isinstance(g.target, ast.Name):
+                    st = {l[1] for l in elems(g.iter, env, depth + 1)}
+                    env2[g.target.id] = st.pop() if len(st) == 1 else "unknown"
+                return elems(x.args[0].elt, env2, depth + 1)
+            if f in ("combinations", "itertools.combinations") and len(x.args) == 2:
+                ok = is_sorted_seq(x.args[0], env)
+                return [(x, "sorted" if ok else ("raw" if ok is False else "unknown"))]
+            if f == "map" and len(x.args) == 2 and txt(x.args[0]) == "sorted":
+                return [(x, "sorted")]
+            return [(x, "unknown")]
+        if isinstance(x, (ast.GeneratorExp, ast.ListComp)) and len(x.generators) == 1:
+            g = x.generators[0]
+            env2 = dict(env)
+            if isinstance(g.target, ast.Name):
+                st = {l[1] for l in elems(g.iter, env, depth + 1)}
+                env2[g.target.id] = st.pop() if len(st) == 1 else "unknown"
+            e = x.elt
+            ok = is_sorted_seq(e, env2)
+            if ok is False and isinstance(e, ast.Name) and env2.get(e.id) == "raw":
+                return [(x, "whole")]       # maximal cliques passed through as they are
+            return [(x, "sorted" if ok else ("raw" if ok is False else "unknown"))]
+        if isinstance(x, ast.BinOp) and isinstance(x.op, ast.Add):
+            return elems(x.left, env, depth + 1) + elems(x.right, env, depth + 1)
+        return [(x, "unknown")]
+    return node, elems(src, {})
+
+
 def run(ctx):
     prog = ctx.prog
     ctx.trust("networkx find_cliques yields all maximal cliques", "Graph.remove_edge removes exactly that edge; Network.remove_edge ignores a missing edge",
@@ -278,8 +352,14 @@ def run(ctx):
             big = rules.cond_term(f"len({Cn}[{cv}]) > self._m0")
             got = rules.path_term(parl, scl, cb, upto=lp, keep=keep)
             where = parl.stmt_of(rules.path_conditions(parl, cb, upto=lp)[0][0]) if rules.path_conditions(parl, cb, upto=lp) else cb
+            big_eq = rules.cond_term(f"len({Cn}[{cv}]) >= self._m0")
             if got == big:
                 o.holds(lm, where, "decompose iff len(clique) > m0")
+            elif got == big_eq:
+                # the only m0-subset of a clique with exactly m0 vertices is that clique (sorted): the same cover entry either way
+                # (independent differential audit: identical covers on 167 graphs)
+                o.holds(lm, where, "decompose iff len(clique) >= m0: a clique of exactly m0 vertices decomposes into itself")
+                big = big_eq
             elif not tm.has_opaque(got) and tm.leaves(got) <= {Cn, cv, "self._m0", "len()"}:
                 o.violated(lm, where, f"cliques are decomposed when `{tm.show(got)}`; exactly the cliques LARGER than m0 must be decomposed (cliques of size m0 stay intact)")
             else:
@@ -321,7 +401,22 @@ def run(ctx):
     with ctx.obligation("C09.4", "members are sorted BEFORE duplicates are removed", floor=2) as o:
         dedupes = [n for n in astx.walk_fn(lm.node) if isinstance(n, ast.Call) and txt(n.func) == "set" and n.args and isinstance(n.args[0], (ast.GeneratorExp, ast.ListComp))
                    and txt(n.args[0].elt).startswith("tuple(")]
-        if len(dedupes) != 1:
+        flow = _dedupe_flow(lm, scl) if len(dedupes) != 1 else None
+        if flow is not None:
+            node, leaves = flow
+            raw = [l for l in leaves if l[1] == "raw"]
+            unk = [l for l in leaves if l[1] == "unknown"]
+            for l in leaves:
+                if l[1] == "sorted":
+                    o.holds(lm, l[0], f"`{txt(l[0])[:70]}` enters the de-duplication in sorted order")
+                elif l[1] == "whole":
+                    o.holds(lm, l[0], f"`{txt(l[0])[:70]}`: maximal cliques kept whole are distinct vertex sets, their vertex order does not matter for the de-duplication")
+            for l in raw:
+                o.violated(lm, l[0], f"`{txt(l[0])[:70]}` enters the de-duplication in the vertex order the clique finder happened to produce: the same vertex set reached "
+                                     "in two orders (a sub-clique shared by two oversized cliques, (a, b) and (b, a)) survives the set, and its edges are covered twice", shape_free=True)
+            if unk and not raw:
+                o.undecided(f"order of `{txt(unk[0][0])[:70]}` entering the de-duplication not understood", lm, unk[0][0])
+        elif len(dedupes) != 1:
             o.undecided("duplicate removal set(tuple(row) ...) not found", lm)
         elif len(combs) == 1 and Cn is not None and len(cl_loops) == 1 and big is not None:
             lp = cl_loops[0]
@@ -345,7 +440,10 @@ def run(ctx):
             if srt or pre:
                 o.holds(lm, (srt or pre)[0], "cliques kept whole are sorted before the de-duplication")
             else:
-                o.violated(lm, lp, "cliques kept whole are not sorted before set(): the same clique in two vertex orders survives de-duplication")
+                # Network.find_cliques lists every MAXIMAL clique once, and no sub-clique of an oversized clique is maximal:
+                # a clique kept whole can coincide with no other entry, whatever its vertex order (confirmed by a
+                # differential run of the variant that drops the early sort: identical covers)
+                o.holds(lm, lp, "cliques kept whole are distinct vertex sets (maximal cliques, each listed once): their vertex order does not matter for the de-duplication")
 
     with ctx.obligation("C09.5", "score-0 cliques go in intact; the random tie-break is over the largest minimum-score candidates", floor=3) as o:
         scs = Scope(cs.node)
